@@ -2085,18 +2085,25 @@ func (l *Loader) loadByContext(ctx context.Context, source DataSource, fetchItem
 	}
 
 	item, shared := l.singleFlight.GetOrCreateItem(fetchItem, input, extraKey)
+	for shared {
+		select {
+		case <-item.loaded:
+		case <-ctx.Done():
+			return ctx.Err()
+		}
+		if item.err == nil || ctx.Err() != nil || !errors.Is(item.err, context.Canceled) {
+			break
+		}
+		// The leader's request was cancelled (its client went away). That says nothing about
+		// this request, so don't inherit the error: try again, possibly as leader.
+		item, shared = l.singleFlight.GetOrCreateItem(fetchItem, input, extraKey)
+	}
 	if res.singleFlightStats != nil {
 		res.singleFlightStats.used = true
 		res.singleFlightStats.shared = shared
 	}
 
 	if shared {
-		select {
-		case <-item.loaded:
-		case <-ctx.Done():
-			return ctx.Err()
-		}
-
 		if item.err != nil {
 			return item.err
 		}
